@@ -21,10 +21,12 @@ PARTIAL = ["terminal detection, colours by environment, Windows are not covered"
 FILTERS = [".", ".[]", ".a", "1, 2", "empty", "error(\"x\")", "., error(\"late\")", "halt", "halt(3)", "1, halt(7), 2", "null", "false", "(1, false)", "(false, 1)",
            "[., 1]", "{a: .}", "\"s\"", "\"a\\u0000b\"", "[.[]?]", "keys?", "tostring", "length", "..", "select(. != null)", ".[0]?", "limit(2; .[]?)",
            "halt(256)", "halt(-1)", "error", "try error catch .", "\"line\\nbreak\"", "[1,[2]]", "{\"b\":1,\"a\":{\"d\":1,\"c\":2}}", "1.0, 1.10, 1e1000, nan",
-           "\"\\u00e9\"", "@json", "first(.[]?)", "if . then 1 else empty end", "(.. | numbers)", "error(null)", "error({a:1})", ". as [$x] | $x"]
+           "\"\\u00e9\"", "@json", "first(.[]?)", "if . then 1 else empty end", "(.. | numbers)", "error(null)", "error({a:1})", ". as [$x] | $x",
+           # objects with keys that are not strings: -S sorts them by the order of values
+           "{(10):\"x\",(9):\"y\",(1):\"z\"}", "{([2]):1,([1]):2,\"a\":3,(null):4,\"B\":5,(true):6,(1.5):7,({}):8,(false):9}", "[{(2):{(3):1,(1):2},(1):0}]"]
 STDINS = [b"", b"null", b"1 2 3", b"[1,2]\n[3]\n", b"{\"a\":1} {\"a\":[2,3]}", b"\"x\" \"y\"\n", b"1 2 oops 3", b"[1,", b"1\n\n2\n", b"  ", b"# c\n1", b"true false null",
           b"a\nb\r\nc", b"a\0b\0", b"line without newline", b"\n", b"{\"b\":2,\"a\":1}", b"[[1,[2]],{\"x\":[]}]", b"1 [2] {", b"\xff\xfe\n", b"\"\\ud83d\\ude00\"",
-          b"1.10 1e1000 -0.0", b"false", b"[null,false]", b"a\0\0\0", b"\0\0", b"a\0\0b", b"\0"]
+          b"1.10 1e1000 -0.0", b"false", b"[null,false]", b"a\0\0\0", b"\0\0", b"a\0\0b", b"\0", b"{10:1,9:2,1:3} {[2]:1,\"a\":2,null:3,[1]:4,1:5}"]
 OPTSETS = [["--raw-output0", "-j"], ["-j", "--raw-output0"], ["--to", "json", "-j"], ["-j", "--to", "json"], ["-r", "--to", "json"], ["--to", "raw", "-c"],
            ["--raw-output0", "-r"], ["-r", "--raw-output0"], ["-cj"], ["-jc", "--raw-output0"], ["--from", "json", "-c"], ["--from", "raw", "-c"], ["-R", "--from", "json", "-c"],
            ["--from", "json", "-R", "-c"], ["--raw-input0", "-R", "-c"], ["-R", "--raw-input0", "-c"], ["--tab", "--indent", "3"], ["--indent", "3", "--tab"], ["--indent", "1", "--indent", "4"],
@@ -63,6 +65,13 @@ def custom(ctx):
             f = "(" + f + ")"       # a leading `-` would be read as an option
         o = rng.choice(OPTSETS)
         s = rng.choice(STDINS)
+        if rng.random() < 0.06:
+            # -S on objects whose keys are not strings (from filters or from jaq's JSON superset on input)
+            o = rng.choice([["-S"], ["-c", "-S"], ["--compact-output", "--sort-keys"], ["-S", "--tab"], ["-cS"]])
+            if rng.random() < 0.5:
+                f = rng.choice([x for x in FILTERS if "(1" in x])
+            else:
+                f, s = rng.choice([".", "[.]", "{a: .}"]), rng.choice([x for x in STDINS if b"{10:1" in x] + [b"{[1,2]:1,[1]:2,{}:3,\"\":4,true:5,false:6,1.5:7,1:8,null:9}", b"{2:{3:1,1:2},1:0}"])
         named = []
         if rng.random() < 0.2:
             named = [("v", "x y"), ("w", "2")]
